@@ -19,6 +19,7 @@ import HT.Model.Confine
 import HT.Model.Relay
 import HT.Model.Handoff
 import HT.Model.Ldap
+import HT.Model.Chunked
 /-!
 Line-protocol driver: one case per input line, `<model> <args…>`; one output line
 per case.  Core Lean only (so it links as an executable).
@@ -49,6 +50,7 @@ def dispatch (line : String) : String :=
   | "ipp" :: args => Ipp.driver args
   | "seg" :: "http" :: args => Relay.segHttpDriver args
   | "seg1" :: args => Relay.segOneDriver args
+  | "segc" :: "http" :: args => Relay.segHttpCDriver args
   | "seg" :: "ldap" :: args => Ldap.driver args
   | "dgram" :: args => Relay.dgramDriver args
   | "seg" :: args => Proto.driver args
